@@ -108,6 +108,12 @@ def offsets(chk):
     chk.check(mname is not None, 'C01-R2', CAT, q, 'cleaned-away mask = (N_total == 0)', f'{mname}', 'the mask of cleaned-away halos is not N_total == 0', node=fn)
     zs = [s for s in walk_no_nested(L) if isinstance(s, ast.Assign) and isinstance(s.targets[0], ast.Subscript) and isinstance(s.targets[0].value, ast.Subscript)
           and unparse(s.targets[0].value.value) == 'self.halos' and fs(s.targets[0].value.slice, 'X') == 'npoutX']
+    # the same store through the local that still aliases the table column (before it is rebound to the sum)
+    bdef = [d for d in defs if isinstance(d.value, ast.Subscript)]
+    mdef0 = [d for d in defs if isinstance(d.value, ast.BinOp)]
+    if bdef and mdef0:
+        zs += [s for s in walk_no_nested(L) if isinstance(s, ast.Assign) and isinstance(s.targets[0], ast.Subscript) and unparse(s.targets[0].value) == arr
+               and bdef[0].lineno < s.lineno < mdef0[0].lineno]
     okz = len(zs) == 1 and unparse(zs[0].targets[0].slice) == (mname or '?') and unparse(zs[0].value) == '0'
     if okz:
         par = zs[0]._parent
@@ -339,9 +345,26 @@ def replacement(chk):
         add = sorted(k for k, _ in kc.adds)
         want_rem = sorted(['npstartA', 'npoutA', 'npstartB', 'npoutB'] + (['npstartA_merge', 'npoutA_merge', 'npstartB_merge', 'npoutB_merge'] if cleaned else []))
         vals = {}
+        # locals bound once in the function are resolved to their defining expressions before the values are compared
+        ldefs = {}
+        for n_ in walk_no_nested(fn):
+            if isinstance(n_, ast.Assign) and len(n_.targets) == 1 and isinstance(n_.targets[0], ast.Name):
+                ldefs.setdefault(n_.targets[0].id, []).append(n_.value)
+        ldefs = {k: v[0] for k, v in ldefs.items() if len(v) == 1}
+
+        class _Res(ast.NodeTransformer):
+            def visit_Name(self_, n_):
+                if isinstance(n_.ctx, ast.Load) and n_.id in ldefs:
+                    import copy as _c
+                    return self_.visit(_c.deepcopy(ldefs[n_.id]))
+                return n_
         for k, node in kc.adds:
-            vals.setdefault(k[:-1], set()).add(unparse(node.args[0]) if node.args else '')
-        okv = vals.get('npstart') == {'npstartAB_new[AB][:-1]'} and vals.get('npout') == {'np.diff(npstartAB_new[AB]).astype(np.uint32)'}
+            import copy as _c
+            v_ = unparse(_Res().visit(_c.deepcopy(node.args[0]))) if node.args else ''
+            vals.setdefault(k[:-1], set()).add(v_)
+        X_ = 'npstartAB_new[AB]'
+        okv = vals.get('npstart') == {f'{X_}[:-1]'} and len(vals.get('npout', ())) == 1 and \
+            next(iter(vals['npout'])) in (f'np.diff({X_}).astype(np.uint32)', f'({X_}[1:] - {X_}[:-1]).astype(np.uint32)')
         chk.check(rem == want_rem and add == ['npoutA', 'npoutB', 'npstartA', 'npstartB'] and okv, 'C01-R7', CAT, q, f'cleaned={cleaned}: old index columns removed, new ones added',
                   f'removed {rem}; npstart <- new[:-1]; npout <- diff(new)',
                   f'removed {rem} (need {want_rem}); added {add} with values {vals}: halo rows would keep indices into the per-file particle arrays', node=fn)
